@@ -194,3 +194,206 @@ def calls(params: Sequence[CParam], objects: Sequence[Any] = ARG_OBJECTS) -> Ite
                 for kws in itertools.combinations(names, r):
                     for vals in itertools.product(objects[:3], repeat=r):
                         yield tuple(pos), dict(zip(kws, vals))
+
+
+# ------------------------------------------------------------------ generic functions
+class _B(Obj):
+    """Bound object (LowerBound / UpperBound / IsOneOf) with the equality of the frozen dataclasses."""
+
+    def key(self) -> Any:
+        a = self._attrs
+        if self._kind == "IsOneOf":
+            return (self._kind, repr(a["typevar"]), tuple(x.key() for x in a["constraints"]))
+        return (self._kind, repr(a["typevar"]), a["value"].key())
+
+    def __eq__(self, other: object) -> bool:
+        return isinstance(other, _B) and self.key() == other.key()
+
+    def __ne__(self, other: object) -> bool:
+        return not self.__eq__(other)
+
+    def __hash__(self) -> int:
+        return hash(self.key())
+
+
+_orig_vkey = amod.V.key
+
+
+def _vkey(self: Any) -> Any:
+    if self._kind == "TypeVarValue":
+        a = self._attrs
+        return ("TV", repr(a["typevar"]), None if a["bound"] is None else a["bound"].key(), tuple(x.key() for x in a["constraints"]))
+    return _orig_vkey(self)
+
+
+amod.V.key = _vkey  # type: ignore[method-assign]
+
+# annotation kinds of the generic model: a plain class, or a type variable
+GENERIC_ANNOTATIONS = ("T", "C", "B", "int", "str")
+
+
+class GenericCallModel(CallModel):
+    """check_call_with_bound_args for functions whose parameters mention a type variable: on top of
+    CallModel, TypeVarValue.can_assign / make_bounds_map / get_inherent_bounds / substitute_typevars,
+    unify_bounds_maps, resolve_bounds_map and solve (with remove_redundant_solutions) are interpreted."""
+
+    def __init__(self, prog: Program) -> None:
+        super().__init__(prog)
+        tv = prog.cls("TypeVarValue")
+        self.tv_methods = {name: tv.methods[name] for name in ("can_assign", "make_bounds_map", "get_inherent_bounds", "substitute_typevars", "get_fallback_value")}
+        self.generic_module_defs = {
+            "unify_bounds_maps": prog.func("value", "unify_bounds_maps"),
+            "resolve_bounds_map": prog.func("typevar", "resolve_bounds_map"),
+            "solve": prog.func("typevar", "solve"),
+        }
+        if prog.has_func("typevar", "remove_redundant_solutions"):
+            self.generic_module_defs["remove_redundant_solutions"] = prog.func("typevar", "remove_redundant_solutions")
+
+    def typevar(self, kind: str) -> Any:
+        am = self.am
+        return amod.V(
+            "TypeVarValue", typevar=Sym(f"~{kind}"), bound=am.typed(int) if kind == "B" else None, default=None,
+            constraints=(am.typed(int), am.typed(str)) if kind == "C" else (), is_paramspec=False, is_typevartuple=False,
+        )
+
+    def run_generic(self, anns: Sequence[str], returns_typevar: bool, positionals: Sequence[Any]) -> Any:
+        """Positional-or-keyword parameters p0.. annotated with anns, called with literal positionals.
+        -> (is_error, [messages]) or ("crash", why)"""
+        am = self.am
+        self.unannotated = amod.V("AnyValue", source=Sym("AnySource.unannotated"))
+        errors: List[str] = []
+        used_any = [False]
+
+        def reset_any_used():
+            saved: List[bool] = []
+            return Obj("ContextManager", __enter__=lambda: (saved.append(used_any[0]), used_any.__setitem__(0, False))[0], __exit__=lambda exc=None: used_any.__setitem__(0, saved.pop()))
+
+        cactx = Obj("CanAssignContext", should_exclude_any=lambda: False, record_any_used=lambda: used_any.__setitem__(0, True), has_used_any_match=lambda: used_any[0], reset_any_used=reset_any_used)
+        it = am._interp(cactx)
+        cactx._attrs["make_type_object"] = lambda typ: am.type_object(typ, it)
+        it.syms = tuple(it.syms) + ("BOTTOM", "TOP")
+
+        def attach(v: Any) -> Any:
+            if isinstance(v, amod.V):
+                if v._kind == "TypedValue":
+                    v._attrs["get_type_object"] = lambda c=None, v=v: am.type_object(v._attrs["typ"], it)
+                elif v._kind == "KnownValue":
+                    v._attrs["get_type_object"] = lambda c=None, v=v: am.type_object(type(v._attrs["val"]), it)
+                elif v._kind == "MultiValuedValue":
+                    for x in v._attrs["vals"]:
+                        attach(x)
+                elif v._kind == "TypeVarValue":
+                    if v._attrs["bound"] is not None:
+                        attach(v._attrs["bound"])
+                    for c in v._attrs["constraints"]:
+                        attach(c)
+                if v._kind != "TypeVarValue":
+                    v._attrs.setdefault("substitute_typevars", lambda typevars, v=v: v)
+            return v
+
+        def on_error(*args: Any, **kwargs: Any) -> None:
+            m = args[0] if args else None
+            errors.append(m.label[4:] if isinstance(m, Opaque) and m.label.startswith("str:") else str(m))
+
+        ctx = Obj("CheckCallContext", visitor=None, can_assign_ctx=cactx, on_error=on_error, node=None)
+        tvs = {k: self.typevar(k) for k in ("T", "C", "B")}
+        sig_params: Dict[str, Obj] = {}
+        typevars_of_params: Dict[str, List[Any]] = {}
+        for i, ann in enumerate(anns):
+            name = f"p{i}"
+            a = tvs[ann] if ann in tvs else self.annotation(ann)
+            if ann in tvs:
+                typevars_of_params[name] = [a._attrs["typevar"]]
+            sig_params[name] = Obj("SigParameter", name=name, kind=Sym("ParameterKind.POSITIONAL_OR_KEYWORD"), default=None, annotation=attach(a), is_unnamed=lambda: False)
+        used = [a for a in anns if a in tvs]
+        ret = attach(tvs[used[0]]) if (returns_typevar and used) else attach(am.known(None))
+        if returns_typevar and used:
+            typevars_of_params["%return"] = [tvs[used[0]]._attrs["typevar"]]
+        sig = Obj(
+            "Signature", parameters=sig_params, callable=None, return_value=ret, all_typevars={tvs[a]._attrs["typevar"] for a in used}, typevars_of_params=typevars_of_params,
+            _return_key="%return", impl=None, evaluator=None, allow_call=False, is_asynq=False,
+        )
+        sig._attrs["_apply_annotated_constraints"] = lambda raw_return, composites, ctx_: raw_return
+
+        def composite(args, kwargs=None):
+            return Obj("Composite", value=args[0], varname=(args[1] if len(args) > 1 else None), node=(args[2] if len(args) > 2 else None))
+
+        composite.wants_kwargs = True  # type: ignore[attr-defined]
+
+        def call_return(args, kwargs=None):
+            d = dict(zip(("return_value", "sig", "is_error", "used_any_for_match", "remaining_arguments"), args))
+            d.update(kwargs or {})
+            for k, dv in (("is_error", False), ("used_any_for_match", False), ("remaining_arguments", None), ("sig", None)):
+                d.setdefault(k, dv)
+            return Obj("CallReturn", **d)
+
+        call_return.wants_kwargs = True  # type: ignore[attr-defined]
+
+        def mk_error(args, kwargs=None):
+            kw = kwargs or {}
+            return Obj("CanAssignError", message=str(args[0]) if args else "", children=list(args[1]) if len(args) > 1 else list(kw.get("children", [])), get_error_code=lambda: None)
+
+        mk_error.wants_kwargs = True  # type: ignore[attr-defined]
+        base_hook = it.isinstance_hook
+
+        def isinstance_hook(v: Any, cls: str) -> Optional[bool]:
+            if cls in ("LowerBound", "UpperBound", "IsOneOf", "OrBound"):
+                return isinstance(v, Obj) and v._kind == cls
+            return base_hook(v, cls)
+
+        it.isinstance_hook = isinstance_hook
+        it.funcs.pop("unify_bounds_maps", None)  # the nominal model stubs it; here the real one is interpreted
+        it.funcs.update({
+            "Composite": composite, "CallReturn": call_return, "CanAssignError": mk_error,
+            "AnyValue": lambda args: attach(amod.V("AnyValue", source=args[0] if args else None)),
+            "LowerBound": lambda args: _B("LowerBound", typevar=args[0], value=args[1]),
+            "UpperBound": lambda args: _B("UpperBound", typevar=args[0], value=args[1]),
+            "IsOneOf": lambda args: _B("IsOneOf", typevar=args[0], constraints=tuple(args[1])),
+            "is_instance_of_typing_name": lambda args: False,
+            "all_of_type": lambda args: all(isinstance(x, Obj) and x._kind == (args[1].label if isinstance(args[1], Opaque) else str(args[1])) for x in args[0]),
+            "unite_values": lambda args: attach(am.union(list(args))) if len(args) != 1 else args[0],
+        })
+        for name, fn in self.sig_methods.items():
+            it.method_defs[("Signature", name)] = fn
+        for name, fn in self.tv_methods.items():
+            it.method_defs[("TypeVarValue", name)] = fn
+        it.module_defs["can_assign_and_used_any"] = self.can_assign_and_used_any
+        it.module_defs.update(self.generic_module_defs)
+        it.globals["UNANNOTATED"] = self.unannotated
+        it.globals["pyanalyze"] = Obj("pyanalyze", typevar=Obj("typevar", resolve_bounds_map=lambda bounds_map, c=None, **kw: it.call_def(self.generic_module_defs["resolve_bounds_map"], [bounds_map, c], self.generic_module_defs["resolve_bounds_map"], kw)))
+        for m in ("DEFAULT", "ARGS", "KWARGS", "UNKNOWN", "ELLIPSIS_COMPOSITE", "ELLIPSIS"):
+            it.globals[m] = Sym(m)
+        actual = Obj(
+            "ActualArguments", positionals=[(True, composite([attach(am.known(o))])) for o in positionals], star_args=None, keywords={}, star_kwargs=None, kwargs_required=False,
+            pos_or_keyword_params=frozenset(), ellipsis=False, param_spec=None,
+        )
+        fn = self.sig_methods["check_call_preprocessed"]
+        try:
+            res = it.call_def(fn, [sig, actual, ctx], fn)
+        except Unsupported as u:
+            raise AnchorError(f"generic call checking cannot be modelled: {u}")
+        except AssertionFailed as af:
+            return ("crash", f"assertion {af}")
+        except (PyRaise, ModelError) as e:
+            return ("crash", str(e))
+        if not (isinstance(res, Obj) and res._kind == "CallReturn"):
+            raise AnchorError(f"check_call_preprocessed returned {res!r} in the model")
+        return bool(res.get("is_error", None)), errors
+
+
+def generic_reference(anns: Sequence[str], positionals: Sequence[Any]) -> str:
+    """"ok" | "binding-error" | "argument-not-in-declared-type" | "no-solution-for-a-type-variable"."""
+    if len(positionals) != len(anns):
+        return "binding-error"
+    by_tv: Dict[str, List[Any]] = {}
+    for a, o in zip(anns, positionals):
+        if a in ("T", "C", "B"):
+            by_tv.setdefault(a, []).append(o)
+        elif not member(o, a):
+            return "argument-not-in-declared-type"
+    for tv, objs in by_tv.items():
+        if tv == "B" and not all(isinstance(o, int) for o in objs):
+            return "no-solution-for-a-type-variable"
+        if tv == "C" and not (all(isinstance(o, int) for o in objs) or all(isinstance(o, str) for o in objs)):
+            return "no-solution-for-a-type-variable"
+    return "ok"
